@@ -147,6 +147,9 @@ type inflCase struct {
 
 func (c inflCase) s() string { return c.Prefix + c.Word }
 func (c inflCase) Line() string {
+	if !utf8.ValidString(c.s()) {
+		return "" // the model works on runes: inputs that are not UTF-8 get the oracle's verdict only (no panic, same answer twice)
+	}
 	return "infl " + []string{"plural", "singular"}[c.Which] + " " + hx(scannerView(c.s()))
 }
 func (c inflCase) Run() string {
@@ -238,7 +241,9 @@ func (c inflCase) Classes() []string {
 }
 func (c inflCase) Nontrivial() bool { return c.isIrregularWord() || c.Prefix != "" }
 
-var c20Prefixes = []string{"", "", "old-", "the ", "x", "x_", "a.b.", "9", "Big ", "é-", "é", "foo-bar ", "-", "un", "sea ", "wo", "a\n", "two\nlines ", "first line\nold ", "path/to/", "Ünï ", "k:", "tab\t", "中", "über-"}
+var c20Prefixes = []string{"", "", "old-", "the ", "x", "x_", "a.b.", "9", "Big ", "é-", "é", "foo-bar ", "-", "un", "sea ", "wo", "a\n", "two\nlines ", "first line\nold ", "path/to/", "Ünï ", "k:", "tab\t", "中", "über-",
+	// runes whose lower-case form has another UTF-8 length, and bytes that are not UTF-8, in front of a separator
+	"İstanbul ", "20 K ", "Ω-", "ẞ ", "Ⱥ ", "ȺȾȺȾ ", "İİİİ-", "\xff ", "\xff\xfe\xfd-", "a\xc3 ", "\xe2\x82 "}
 
 func genInfl(r *Rng) inflCase {
 	t := loadInflTables()
@@ -394,7 +399,7 @@ func init() {
 			Name: "inflect", Quick: 30000, Thorough: 300000,
 			New: func() Case { return &inflCase{} },
 			Gen: func(r *Rng, i int) Case { return genInfl(r) },
-			Rule: "Pluralize/Singularize on prefix+word: every irregular and uninflected word and rule examples in lower/Title/UPPER case, with ſ/K substitutions, truncated or suffixed, behind 25 prefixes (separators, word characters, non-ASCII, newlines); model = irregular step (Lean) with the rules part re-stated from the source where it finds no irregular match; oracle: no panic, same answer twice, prefix preserved and word inflected as on its own",
+			Rule: "Pluralize/Singularize on prefix+word: every irregular and uninflected word and rule examples in lower/Title/UPPER case, with ſ/K substitutions, truncated or suffixed, behind 36 prefixes (separators, word characters, non-ASCII, newlines, runes whose case mapping changes their UTF-8 length, bytes that are not UTF-8); model = irregular step (Lean) with the rules part re-stated from the source where it finds no irregular match; oracle: no panic, same answer twice, prefix preserved and word inflected as on its own",
 		},
 		{
 			Name: "all-irregular", New: func() Case { return &inflCase{} },
